@@ -38,6 +38,7 @@ from .tr_expr import Unsupported, fail, find_function, zlit
 BOUDOT = "ipv8/attestation/wallet/pengbaorange/boudot.py"
 ATTEST = "ipv8/attestation/wallet/pengbaorange/attestation.py"
 STRUCTS = "ipv8/attestation/wallet/pengbaorange/structs.py"
+PBALG = "ipv8/attestation/wallet/pengbaorange/algorithm.py"
 BONEH = "ipv8/attestation/wallet/primitives/boneh.py"
 BXATT = "ipv8/attestation/wallet/bonehexact/attestation.py"
 
@@ -621,6 +622,7 @@ def generate(repo=None):
     if sites["g_create_attest_pair"] != 8:
         raise Unsupported("create_attest_pair has %d _random_number call sites, the draw record of the model has 8"
                           % sites["g_create_attest_pair"])
+    out.append(translate_pb_algorithm(repo))
     out.append("End Gen.\n")
     out += ["Section GenDriver.",
             "  Variable A : Type.", "  Variable R : Type.", "  Variable sha : bytes -> Z.",
@@ -631,7 +633,7 @@ def generate(repo=None):
     return "\n".join(out)
 
 
-def write(repo=None, dest="/verif/coq/gen/G18_proofs.v"):
+def write(repo=None, dest=os.path.join(os.path.dirname(os.path.dirname(os.path.dirname(os.path.abspath(__file__)))), "coq", "gen", "G18_proofs.v")):
     text = generate(repo)
     old = open(dest).read() if os.path.exists(dest) else None
     if old != text:
@@ -1043,6 +1045,103 @@ def translate_driver(repo):
     body = tr.block(stmts, TrD.RET)
     return ("Definition g_on_challenge_response (st : vstate A) (hh : Z) (resp : R) (hc_draw : bool) (hc_byte : Z) (hc_q : list bytes)\n"
             "  : res (vstate A * list (veff A)) :=\n  let out := @nil (veff A) in\n  %s.\n" % body)
+
+
+# ================================================================================================================
+# pengbaorange/algorithm.py: the verifier's draw domain (_safe_rndint, create_challenges) and the prover's guard
+# (create_challenge_response).  The wire packing (pack_pair / unpack_pair) is left out: a challenge is the pair (s, t),
+# an answer the 4-tuple (x, y, u, v); iunpack . ipack is C18.unpack_pair_pack_pair.
+def translate_pb_algorithm(repo):
+    tree = ast.fix_missing_locations(Rename().visit(ast.parse(open(os.path.join(repo, PBALG)).read())))
+    consts = {}
+    for nd in tree.body:
+        if isinstance(nd, ast.Assign) and len(nd.targets) == 1 and isinstance(nd.targets[0], ast.Name) \
+                and isinstance(nd.value, ast.Constant) and isinstance(nd.value.value, int) and not isinstance(nd.value.value, bool):
+            consts[nd.targets[0].id] = nd.value.value
+    if "LARGE_INTEGER" not in consts:
+        raise Unsupported("LARGE_INTEGER not found in %s" % PBALG)
+    out = ["Definition LARGE_INTEGER : Z := %s.\n" % zlit(consts["LARGE_INTEGER"])]
+
+    def mk(env):
+        env = dict(env)
+        env["LARGE_INTEGER"] = "Z"
+        return TrP(env, {}, "pure")
+    # ---- _safe_rndint(key_size, mod) ----
+    fn = find_function(tree, None, "_safe_rndint")
+    if [a.arg for a in fn.args.args] != ["key_size", "mod_"] or fn.args.defaults:
+        raise Unsupported("signature of _safe_rndint")
+    body = [b for b in fn.body if not (isinstance(b, ast.Expr) and isinstance(b.value, ast.Constant))]
+    ok = (len(body) == 4 and isinstance(body[0], ast.Assign) and isinstance(body[0].value, ast.Lambda)
+          and U(body[0].value) == "lambda: int(hexlify(urandom(key_size // 8)), 16) % mod_"
+          and isinstance(body[0].targets[0], ast.Name)
+          and isinstance(body[1], ast.Assign) and isinstance(body[1].targets[0], ast.Name)
+          and U(body[1].value) == body[0].targets[0].id + "()"
+          and isinstance(body[2], ast.While) and not body[2].orelse and len(body[2].body) == 1
+          and U(body[2].body[0]) == U(body[1])
+          and isinstance(body[3], ast.Return) and U(body[3].value) == body[1].targets[0].id)
+    if not ok:
+        raise Unsupported("_safe_rndint is not `out = draw % mod; while <test>(out): out = draw % mod; return out`")
+    var = body[1].targets[0].id
+    c = mk({var: "Z"}).expr(body[2].test)
+    if c[1] != "bool" or not c[2]:
+        raise Unsupported("loop test of _safe_rndint")
+    out.append("Definition g_safe_rndint (mod_ : Z) (q : list Z) : res Z :=\n  draw_while (fun %s => %s) q mod_.\n" % (var, c[0]))
+
+    def rnd_call(n, site, tr):
+        if not (isinstance(n, ast.Call) and U(n.func) == "_safe_rndint" and len(n.args) == 2 and U(n.args[0]) == "self.key_size"):
+            fail(n, "expected _safe_rndint(self.key_size, <modulus>)")
+        m = tr.expr(n.args[1])
+        if m[1] != "Z" or not m[2]:
+            fail(n, "modulus")
+        return "(g_safe_rndint %s (nth %d rq []))" % (m[0], site)
+    # ---- create_challenges(self, PK, attestation) ----
+    fn = find_function(tree, "PengBaoRangeAlgorithm", "create_challenges")
+    body = [b for b in fn.body if not (isinstance(b, ast.Expr) and isinstance(b.value, ast.Constant))]
+    if [a.arg for a in fn.args.args] != ["self", "PK", "attestation"] or len(body) != 2 or not isinstance(body[0], ast.Assign) \
+            or not isinstance(body[1], ast.Return) or not isinstance(body[1].value, ast.ListComp):
+        raise Unsupported("shape of create_challenges")
+    tr = mk({"PK": "pk"})
+    modv = tr.expr(body[0].value)
+    mname = body[0].targets[0].id
+    lc = body[1].value
+    if modv[1] != "Z" or not modv[2] or len(lc.generators) != 1 or U(lc.generators[0].iter) != "range(1)" or lc.generators[0].ifs \
+            or not (isinstance(lc.elt, ast.Call) and U(lc.elt.func) == "pack_pair" and len(lc.elt.args) == 2):
+        raise Unsupported("create_challenges is expected to build exactly one pack_pair(<draw>, <draw>)")
+    tr.env[mname] = "Z"
+    d0, d1 = rnd_call(lc.elt.args[0], 0, tr), rnd_call(lc.elt.args[1], 1, tr)
+    out.append("Definition g_pb_create_challenges (rq : list (list Z)) : res (Z * Z) :=\n"
+               "  (let %s := %s in (bind %s (fun s_ => (bind %s (fun t_ => Ok (s_, t_)))))).\n" % (mname, modv[0], d0, d1))
+    # ---- create_challenge_response(self, SK, attestation, challenge) ----
+    fn = find_function(tree, "PengBaoRangeAlgorithm", "create_challenge_response")
+    body = [b for b in fn.body if not (isinstance(b, ast.Expr) and isinstance(b.value, ast.Constant))]
+    if [a.arg for a in fn.args.args] != ["self", "SK", "attestation", "challenge"] or len(body) != 4:
+        raise Unsupported("shape of create_challenge_response")
+    if U(body[0]) != "s, t = unpack_pair(challenge)[0:2]":
+        raise Unsupported("create_challenge_response: how the challenge is decoded")
+    tr = mk({"SK": "sk", "s": "Z", "t": "Z"})
+    g = body[1]
+    if not (isinstance(g, ast.If) and not g.orelse and len(g.body) == 1 and isinstance(g.body[0], ast.Return)):
+        raise Unsupported("create_challenge_response: the guard")
+    cond = tr.expr(g.test)
+    if cond[1] != "bool" or not cond[2]:
+        raise Unsupported("create_challenge_response: guard condition")
+
+    def two_pairs(n):
+        if isinstance(n, ast.BinOp) and isinstance(n.op, ast.Add) and all(
+                isinstance(x, ast.Call) and U(x.func) == "pack_pair" and len(x.args) == 2 for x in (n.left, n.right)):
+            return n.left.args + n.right.args
+        fail(n, "an answer is pack_pair(_, _) + pack_pair(_, _)")
+    garbage = [rnd_call(a, i, tr) for i, a in enumerate(two_pairs(g.body[0].value))]
+    want = "x, y, u, v = cast('PengBaoCommitmentPrivate', attestation.privatedata).generate_response(s, t)"
+    if U(body[2]) != want or not isinstance(body[3], ast.Return) or [U(a) for a in two_pairs(body[3].value)] != ["x", "y", "u", "v"]:
+        raise Unsupported("create_challenge_response: the honest answer")
+    gt = "Ok (a0_, a1_, a2_, a3_)"
+    for i in (3, 2, 1, 0):
+        gt = "(bind %s (fun a%d_ => %s))" % (garbage[i], i, gt)
+    out.append("Definition g_pb_create_challenge_response (priv : rprivate) (s : Z) (t : Z) (rq : list (list Z)) : res (Z * Z * Z * Z) :=\n"
+               "  (if %s then %s else (bind (g_generate_response priv s t) (fun r_ => let '(x, y, u, v) := r_ in Ok (x, y, u, v)))).\n"
+               % (cond[0], gt))
+    return "\n".join(out)
 
 
 if __name__ == "__main__":
